@@ -570,9 +570,19 @@ static Fiber* pick_strategy(int kind, Fiber** run, int nrun) {
     // no fiber keeps the processor for thousands of points while others are runnable: on real hardware they run in
     // parallel, and a tight retry loop without any pause (tbbmalloc's findBlock) would otherwise shut out the fiber it waits for
     if (cur_ok && nrun > 1 && g_consec > 1500 + g_rng_sched.below(1500)) {
-        Fiber* o; do o = run[g_rng_sched.below(nrun)]; while (o == cur);
-        g_force_fiber = o->id; g_force_left = 10 + (int)g_rng_sched.below(60);
-        return o;
+        // (a fiber that the stall / hunt strategy is holding back on purpose stays held: long delays of one thread across
+        //  thousands of steps of another are exactly what those strategies are for)
+        Fiber* cand[MAX_FIBERS]; int nc = 0;
+        for (int i = 0; i < nrun; ++i)
+            if (run[i] != cur &&
+                !(g_strategy == S_STALL && run[i]->id == g_stall_victim && g_step >= g_stall_from && g_step < g_stall_to) &&
+                !(g_strategy == S_HUNT && run[i]->id == g_hunt_victim && g_step < g_hunt_release_at))
+                cand[nc++] = run[i];
+        if (nc) {
+            Fiber* o = cand[g_rng_sched.below(nc)];
+            g_force_fiber = o->id; g_force_left = 10 + (int)g_rng_sched.below(60);
+            return o;
+        }
     }
     {
         uint64_t bound = 2000ull * (uint64_t)(nrun + 1) + g_rng_sched.below(1009);
